@@ -10,6 +10,20 @@ C12_FAST = [f"rt_{w}" for w in W] + [f"pair_{w}" for w in W] + ["rt_f32", "rt_f6
 C12_WIDE = ["pair_u128", "pair_i128"]
 
 PROPS = {
+    "C10": {
+        "verus": ["c10_writebehind"],
+        "kani": [],
+        "witness": witness.c10,
+        "assumptions": [
+            "concurrency is NOT decided: that serializer threads forward every task, the join order of Drop for WriteBehind, memory ordering of the shutdown flag, atomicity of fetch_add in WriteBufferPool::get_buffer",
+            "HISTORY PRECONDITIONS assumed inside commit_worker (explicit assume statements, listed in trusted_base): each epoch is delivered at most once and is < total; at channel close every epoch < total has been delivered; total < 2^64-1",
+            "committed(tags) is an event predicate: 'a physical batch holding exactly these logical batches in this order was committed'; the temporal order BETWEEN physical commits is argued from the contracts (flush is the only commit site, upto only grows), not proved",
+            "interface stand-ins: KvDatabase / KvWriteBatch / KvSerializationBuffer (3 methods used, with ghost tag/pending), crossbeam_channel (send succeeds; recv arbitrary), AtomicBool (load arbitrary), WriteBatch{epoch,active} and WriteBehind{serialize_sender} field subsets, WriteBatch::write_to_db",
+            "std models: BinaryHeap (abstract-order view, peek/pop return a greatest element w.r.t. Ord), mem::replace/take/drop, derived Ord for Epoch",
+            "termination of the two receive loops is not verified (depends on channel close)",
+            "not under contract: WriteBufferPool::get_buffer/return_buffer, after_commit_worker, TypedWideColumnWrites/TypedKeyOfSetWrites (hash maps of dyn entries), Drop for WriteBehind, WriteBehind::new",
+        ],
+    },
     "C11": {
         "verus": ["c11_rocksdb", "c11_fjall"],
         # the key scheme rests on the Postcard leaf codecs of the integer widths keys are made of (rule R10 assumes
